@@ -245,6 +245,12 @@ def spec_read_term(r, depth=0):
     if tag in (104, 105):
         n = r.u(1 if tag == 104 else 4)
         return ("tuple", tuple(spec_read_term(r, depth + 1) for _ in range(n)))
+    if tag == 82:
+        i = r.u(1)
+        refs = getattr(r, "refs", None)
+        if refs is None or i >= len(refs):
+            raise EtfError("atom cache reference %d without a header entry" % i)
+        return ("atom", refs[i])
     if tag == 106:
         return NIL
     if tag == 107:
@@ -338,6 +344,41 @@ def spec_read_term(r, depth=0):
             raise EtfError("trailing bytes in compressed section")
         return v
     raise EtfError("unknown tag %d" % tag)
+
+
+def spec_read_dist_message(data, cache):
+    """Distribution header per erl_ext_dist: 131 68 N Flags AtomCacheRefs, then control [and payload] terms.
+    `cache` (dict slot -> atom bytes, slot = segment*256 + internal index) persists across messages.
+    Returns (control value, payload value or None)."""
+    r = Reader(data)
+    if r.u(1) != 131:
+        raise EtfError("version")
+    r.refs = []
+    if r.d[r.i:r.i + 1] == bytes([68]):
+        r.u(1)
+        n = r.u(1)
+        if n:
+            flags = r.take(n // 2 + 1)
+            nib = lambda k: (flags[k // 2] >> (4 if k % 2 else 0)) & 0xf  # noqa
+            long_atoms = bool(nib(n) & 1)
+            for i in range(n):
+                f = nib(i)
+                slot = (f & 7) * 256 + r.u(1)
+                if f & 8:
+                    ln = r.u(2 if long_atoms else 1)
+                    txt = r.take(ln)
+                    txt.decode("utf-8")
+                    cache[slot] = txt
+                if slot not in cache:
+                    raise EtfError("reference to an empty cache slot")
+                r.refs.append(cache[slot])
+    ctl = spec_read_term(r)
+    pl = None
+    if r.i < len(data):
+        pl = spec_read_term(r)
+    if r.i != len(data):
+        raise EtfError("trailing")
+    return ctl, pl
 
 
 def atom_of(v):
